@@ -41,6 +41,28 @@ def op_tla(o):
     return rec({'op': s(o['op']), 'args': seq([s(a) for a in o['args']]), 'ch': s(o['ch']), 'rc': str(o['rc'])})
 
 
+def candidates(name):
+    """candidate .do files of a target in a flat project, best first (paths.rs)"""
+    out = [name + '.do']
+    for i, c in enumerate(name):
+        if c == '.':
+            out.append('default' + name[i:] + '.do')
+    out.append('default.do')
+    return out
+
+
+def complete(p):
+    """derive the candidate lists and add never-existing candidate .do files"""
+    p = dict(p)
+    p['cands'] = {x: candidates(x) for x in p['plain']}
+    rules = dict(p['rules'])
+    for x in p['plain']:
+        for c in p['cands'][x]:
+            rules.setdefault(c, [])
+    p['rules'] = rules
+    return p
+
+
 def prog_constants(p, j=1, max_hist=4, max_cmds=3, unlocked_bug=False):
     """TLA+ definitions for the constants of RedoSys."""
     plain = p['plain']
@@ -229,4 +251,4 @@ FAMILY_QUICK = [chain, diamond, lambda: stamped(1, 'plain'), lambda: stamped(1, 
 
 
 def all_programs():
-    return [f() for f in FAMILY_QUICK]
+    return [complete(f()) for f in FAMILY_QUICK]
